@@ -24,7 +24,9 @@ func main() {
 		vlib.Group{Name: "powpsd", Gen: genPowPSD},
 		vlib.Group{Name: "reuse", Gen: genReuse},
 		vlib.Group{Name: "update-contracts", Gen: genUpdateMisc},
-		vlib.Group{Name: "chol-histories", Gen: genCholHist},
 		vlib.Group{Name: "lu-histories", Gen: genLUHist},
+		// the Cholesky histories are by far the largest group: last, so that an internal
+		// deadline on an overloaded machine cuts nothing else
+		vlib.Group{Name: "chol-histories", Gen: genCholHist},
 	)
 }
